@@ -52,19 +52,20 @@ Section Concrete.
     intros k Hk Hb H. unfold feq in H. rewrite Z.mod_0_l in H by lia.
     destruct k as [|q|q]; [lia| |]; cbn [IZR1] in H; rewrite IPR_Z in H.
     - rewrite Z.mod_small in H by lia. lia.
-    - change (- Z.pos q) with (Z.neg q) in H.
-      apply Z.mod_divide in H; [|lia]. destruct H as [m Hm]. cbn [Z.abs] in Hb. nia.
+    - apply Z.mod_divide in H; [|lia]. destruct H as [m Hm]. cbn [Z.abs] in Hb.
+      change (- Z.pos q = m * p) in Hm. pose proof (Pos2Z.is_pos q).
+      assert (m <= -1 \/ 0 <= m) as [Hm1|Hm1] by lia; nia.
   Qed.
 
   Lemma Hdisc_p :
     ~ (1 + 1) * (1 + 1) * ca c * ca c * ca c + (1 + 1 + 1) * (1 + 1 + 1) * (1 + 1 + 1) * cb c * cb c == 0.
   Proof.
     intro H. apply Hdisc. apply (proj1 (feq_0 p Hp _)).
-    rewrite <- H. unfold feq. f_equal. ring.
+    rewrite <- H. unfold feq; f_equal; ring.
   Qed.
 
   (* ---- ec_add satisfies the relation ------------------------------------------------------------------------ *)
-  Notation AR := (@add_rel Z Z.add Z.mul Z.sub (feq p) (ca c)).
+  Notation AR := (@add_rel Z 0 Z.add Z.mul Z.sub (feq p) (ca c)).
   Notation PEQ := (@peq Z (feq p)).
 
   Lemma peq_refl : forall P, PEQ P P.
@@ -77,47 +78,47 @@ Section Concrete.
     3:{ apply AR_0l. apply peq_refl. }
     2:{ apply AR_0r. apply peq_refl. }
     pose proof HP as HP'. pose proof HQ as HQ'.
-    apply (point_ok_some c Hp) in HP'. destruct HP' as (Hx1 & Hy1 & Hc1).
-    apply (point_ok_some c Hp) in HQ'. destruct HQ' as (Hx2 & Hy2 & Hc2).
+    apply (point_ok_some c) in HP'. destruct HP' as (Hx1 & Hy1 & Hc1).
+    apply (point_ok_some c) in HQ'. destruct HQ' as (Hx2 & Hy2 & Hc2).
     destruct (Z.eq_dec ((x1 - x2) mod p) 0) as [E|E].
     - assert (Ex : x1 == x2).
       { apply (proj2 (feq_0 p Hp _)) in E. transitivity ((x1 - x2) + x2); [unfold feq; f_equal; ring|].
-        rewrite E. unfold feq. f_equal. ring. }
-      assert (x1 = x2) by (apply (feq_red c Hp Hp3); assumption). subst x2.
+        rewrite E. unfold feq; f_equal; ring. }
+      assert (x1 = x2) by (apply (feq_red c); assumption). subst x2.
       unfold ec_add. rewrite E. cbn [Z.eqb].
       destruct (Z.eqb_spec ((y1 + y2) mod p) 0) as [S|S].
       + apply AR_opp; [reflexivity|]. apply (proj2 (feq_0 p Hp _)). exact S.
-      + destruct (same_x_cases c Hp Hp3 x1 y1 y2 Hc1 Hc2) as [D|D]; [|contradiction].
-        assert (y1 = y2) by (apply (feq_red c Hp Hp3); assumption). subst y2.
+      + destruct (same_x_cases c Hp x1 y1 y2 Hc1 Hc2) as [D|D]; [|contradiction].
+        assert (y1 = y2) by (apply (feq_red c); assumption). subst y2.
         assert (Hy0 : y1 mod p <> 0).
         { intro H0. apply S. apply (proj2 (double_y_0 c Hp Hp3 y1)). exact H0. }
-        rewrite (ec_double_AD c Hp Hp3) by exact Hy0.
+        rewrite (ec_double_AD c Hp) by exact Hy0.
         assert (Hd : ~ y1 + y1 == 0).
         { intro H0. apply S. apply (proj1 (feq_0 p Hp _)). exact H0. }
-        unfold aff_double, c2, c3. cbn [fst snd].
+        unfold aff_double, c3, c2. cbn [fst snd].
         destruct (inv_ex_p (y1 + y1) Hd) as [i Hi].
         assert (Hl : fdiv p ((1 + 1 + 1) * x1 * x1 + ca c) ((1 + 1) * y1) * (y1 + y1) ==
                      x1 * x1 + x1 * x1 + x1 * x1 + ca c).
         { unfold fdiv. pose proof (Fp_field p Hp) as FT. destruct FT as [_ _ _ Finv].
           assert (Hd2 : ~ (1 + 1) * y1 == 0).
-          { intro H0. apply Hd. rewrite <- H0. unfold feq. f_equal. ring. }
+          { intro H0. apply Hd. rewrite <- H0. unfold feq; f_equal; ring. }
           pose proof (Finv _ Hd2) as Hinv. unfold finv in Hinv.
           transitivity (((1 + 1 + 1) * x1 * x1 + ca c) * (modinv ((1 + 1) * y1) p * ((1 + 1) * y1)));
             [unfold feq; f_equal; ring|].
-          rewrite Hinv. unfold feq. f_equal. ring. }
+          rewrite Hinv. unfold feq; f_equal; ring. }
         set (l := fdiv p ((1 + 1 + 1) * x1 * x1 + ca c) ((1 + 1) * y1)) in *.
         apply AR_dbl with (l := l); try reflexivity; try assumption.
-        * rewrite (mod_feq p Hp). unfold feq. f_equal. ring.
+        * rewrite (mod_feq p Hp). unfold feq; f_equal; ring.
         * rewrite !(mod_feq p Hp). reflexivity.
     - rewrite (ec_add_AA c Hp) by exact E.
       assert (Hne : ~ x1 == x2).
-      { intro H0. apply E. apply (proj1 (feq_0 p Hp _)). rewrite H0. unfold feq. f_equal. ring. }
+      { intro H0. apply E. apply (proj1 (feq_0 p Hp _)). rewrite H0. unfold feq; f_equal; ring. }
       unfold aff_add. cbn [fst snd].
       assert (Hl : fdiv p (y2 - y1) (x2 - x1) * (x2 - x1) == y2 - y1).
       { unfold fdiv. pose proof (Fp_field p Hp) as FT. destruct FT as [_ _ _ Finv].
         pose proof (Finv _ (sub_swap_neq c Hp _ _ E)) as Hinv. unfold finv in Hinv.
         transitivity ((y2 - y1) * (modinv (x2 - x1) p * (x2 - x1))); [unfold feq; f_equal; ring|].
-        rewrite Hinv. unfold feq. f_equal. ring. }
+        rewrite Hinv. unfold feq; f_equal; ring. }
       set (l := fdiv p (y2 - y1) (x2 - x1)) in *.
       apply AR_chord with (l := l); try assumption.
       + apply (mod_feq p Hp).
@@ -128,14 +129,14 @@ Section Concrete.
   Lemma peq_eq : forall P Q, point_ok c P = true -> point_ok c Q = true -> PEQ P Q -> P = Q.
   Proof.
     intros [[x y]|] [[x' y']|] HP HQ H; cbn in H; try contradiction; [|reflexivity].
-    apply (point_ok_some c Hp) in HP. destruct HP as (Hx & Hy & _).
-    apply (point_ok_some c Hp) in HQ. destruct HQ as (Hx' & Hy' & _). destruct H as [E1 E2].
-    f_equal. f_equal; apply (feq_red c Hp Hp3); assumption.
+    apply (point_ok_some c) in HP. destruct HP as (Hx & Hy & _).
+    apply (point_ok_some c) in HQ. destruct HQ as (Hx' & Hy' & _). destruct H as [E1 E2].
+    f_equal. f_equal; apply (feq_red c); assumption.
   Qed.
 
   Lemma ok_oc : forall P, point_ok c P = true -> @oc Z Z.add Z.mul (feq p) (ca c) (cb c) P.
   Proof.
-    intros [[x y]|] H; cbn; [|exact I]. apply (point_ok_some c Hp) in H. destruct H as (_ & _ & H). exact H.
+    intros [[x y]|] H; cbn; [|exact I]. apply (point_ok_some c) in H. destruct H as (_ & _ & H). exact H.
   Qed.
 
   Theorem ec_add_assoc : forall P Q R,
